@@ -16,6 +16,8 @@ import (
 type Rec struct {
 	*chain.DBStore
 	After func(apply bool, index types.ChainIndex, d Diffs)
+	// Before, if set, runs before the store performs a step
+	Before func(apply bool)
 	// Pending holds the step the store is performing (it stays set when the store panics)
 	Pending *PendingStep
 }
@@ -31,6 +33,9 @@ type PendingStep struct {
 func (r *Rec) ApplyBlock(s consensus.State, cau consensus.ApplyUpdate) {
 	d := ApplyDiffs(cau)
 	r.Pending = &PendingStep{Apply: true, Index: s.Index, Diffs: d}
+	if r.Before != nil {
+		r.Before(true)
+	}
 	r.DBStore.ApplyBlock(s, cau)
 	r.Pending = nil
 	if r.After != nil {
@@ -43,6 +48,9 @@ func (r *Rec) RevertBlock(s consensus.State, cru consensus.RevertUpdate) {
 	d := RevertDiffs(cru)
 	idx := cru.ChainIndexElement().ChainIndex
 	r.Pending = &PendingStep{Index: idx, Diffs: d}
+	if r.Before != nil {
+		r.Before(false)
+	}
 	r.DBStore.RevertBlock(s, cru)
 	r.Pending = nil
 	if r.After != nil {
@@ -74,7 +82,9 @@ type StepRec struct {
 	View   *View // what the store serves after the step
 	// the ids SupplementTipTransaction returned for the cumulative probe of the case
 	ProbeSC, ProbeSF, ProbeFC []types.Hash256
-	Call                      int // index of the manager call during which the step happened (-1: opening the store)
+	// leaf index and number of proof entries of every element that probe was served
+	ProbeProofs [][2]uint64
+	Call        int // index of the manager call during which the step happened (-1: opening the store)
 }
 
 // A Node is a real manager over a recording store, fed from a tree.
@@ -164,19 +174,7 @@ func (n *Node) record(apply bool, idx int, d Diffs) {
 		}
 	}
 	st.View = TakeView(n.DB, n.Inner, n.MaxH)
-	func() {
-		defer func() { recover() }()
-		ts := n.Inner.SupplementTipTransaction(ProbeTxn(n.Names.SC, n.Names.SF, n.Names.FC))
-		for _, e := range ts.SiacoinInputs {
-			st.ProbeSC = append(st.ProbeSC, types.Hash256(e.ID))
-		}
-		for _, e := range ts.SiafundInputs {
-			st.ProbeSF = append(st.ProbeSF, types.Hash256(e.ID))
-		}
-		for _, e := range ts.RevisedFileContracts {
-			st.ProbeFC = append(st.ProbeFC, types.Hash256(e.ID))
-		}
-	}()
+	st.Probe(n.Inner, n.Names)
 	n.Steps = append(n.Steps, st)
 	if n.OnStep != nil {
 		n.OnStep(st)
@@ -392,4 +390,46 @@ func (m *ExpModel) Revert(height uint64, d Diffs) (trigger bool) {
 		}
 	}
 	return false
+}
+
+// Probe asks the store to supplement a transaction naming every element the
+// case has seen so far and records which ones it served, with the shape of
+// their proofs.
+func (st *StepRec) Probe(store *chain.DBStore, names *Names) {
+	defer func() { recover() }()
+	ts := store.SupplementTipTransaction(ProbeTxn(names.SC, names.SF, names.FC))
+	for _, e := range ts.SiacoinInputs {
+		st.ProbeSC = append(st.ProbeSC, types.Hash256(e.ID))
+		st.ProbeProofs = append(st.ProbeProofs, [2]uint64{e.StateElement.LeafIndex, uint64(len(e.StateElement.MerkleProof))})
+	}
+	for _, e := range ts.SiafundInputs {
+		st.ProbeSF = append(st.ProbeSF, types.Hash256(e.ID))
+		st.ProbeProofs = append(st.ProbeProofs, [2]uint64{e.StateElement.LeafIndex, uint64(len(e.StateElement.MerkleProof))})
+	}
+	for _, e := range ts.RevisedFileContracts {
+		st.ProbeFC = append(st.ProbeFC, types.Hash256(e.ID))
+		st.ProbeProofs = append(st.ProbeProofs, [2]uint64{e.StateElement.LeafIndex, uint64(len(e.StateElement.MerkleProof))})
+	}
+}
+
+// NewNodeFromImage reopens a store on db (a committed image of a node whose
+// block steps so far were prior) and starts a manager over the recording
+// wrapper; the prior steps are kept so that Judge can replay the whole history
+// of the buckets.
+func NewNodeFromImage(t *chaingen.Tree, db chain.DB, prior []*StepRec, names *Names) (*Node, error) {
+	inner, ts, err := chain.NewDBStore(db, t.Env.Net, t.Env.Genesis, nil)
+	if err != nil {
+		return nil, err
+	}
+	n := &Node{T: t, DB: db, Inner: inner, MaxH: MaxHeight(t) + 2, Names: names, Call: 1000}
+	n.Steps = append(n.Steps, prior...)
+	n.Rec = &Rec{DBStore: inner, After: n.after}
+	n.Sim = mgrsim.NewSimOver(t, inner, n.Rec, ts)
+	return n, nil
+}
+
+// DoObserved performs one manager call and observes the node fully (C01's observation).
+func (n *Node) DoObserved(op mgrsim.Op) mgrsim.Obs {
+	n.Call++
+	return n.Sim.Do(op)
 }
